@@ -269,20 +269,47 @@ Print Assumptions C16_expand_value_rescanned.
    expand_only run out of EVERY amount of fuel (the real loop never ends: the string grows by one character per
    round; reproduced: A='x${A}' ./prog '${A}' and PIKA_TRACE_DEPTH='x${PIKA_TRACE_DEPTH}' ./prog hang, finding
    C16:expand:self_reference_hang); the exact self reference A='${A}' stops, because the first character of the
-   substituted text is skipped.  A colon directly behind `${` / `$[` terminates the process (std::out_of_range from
-   find_next; finding C16:expand:colon_out_of_range). *)
+   substituted text is skipped.  (A colon directly behind `${` / `$[` used to terminate the process - std::out_of_range
+   from find_next, C16:expand:colon_out_of_range; repaired, see C16_colon_at_start_is_default below.  The
+   expansion has no third outcome any more: XThrow / RExpandCrash are gone from the model.) *)
 Theorem C16_expand_self_reference_loops :
   (forall look fuel, xp_all env_loop look fuel "${A}" = XFuel) /\
   (forall look k fuel, xp_only env_loop look fuel k "${A}" = XFuel) /\
   (forall look f, xp_all [("A", "${A}")] look (S (S f)) "${A}" = XOk "${A}") /\
   run env_loop M16 "./prog" ["${A}"] = Rejected RExpandLoop /\
-  run [("PIKA_TRACE_DEPTH", "x${PIKA_TRACE_DEPTH}")] M16 "./prog" [] = Rejected RExpandLoop /\
-  run [] M16 "./prog" ["${:x}"] = Rejected RExpandCrash.
+  run [("PIKA_TRACE_DEPTH", "x${PIKA_TRACE_DEPTH}")] M16 "./prog" [] = Rejected RExpandLoop.
 Proof.
   split; [exact self_reference_loops|]. split; [exact self_reference_loops_only|].
   split; [exact exact_self_reference_stops|]. repeat split; vm_compute; reflexivity.
 Qed.
 Print Assumptions C16_expand_self_reference_loops.
+
+(* a colon directly behind `${` / `$[` (the former crash C16:expand:colon_out_of_range; fix "ini find_next does not
+   look in front of position 0 for an escape character"): find_next(":", to_expand) finds the colon at position 0,
+   the name in front of it is empty and EVERYTHING behind it is the default - further colons included.  getenv("")
+   is null for every environment, so for every environment, configuration, key and amount of fuel >= 2, and every
+   text d without '$', closing delimiter and backslash, expand / expand_only / add_entry + get_entry of "${:" d "}"
+   give exactly d; "$[:" d "]" gives d when the configuration has no entry with the empty key.  End to end:
+   ./prog '${:x}' and ./prog '$[:x]' start and the application sees x (replayed on the real code on every run,
+   tools/props/c16.py family dollar_colon). *)
+Theorem C16_colon_at_start_is_default :
+  (forall env look k f d,
+     contains c_dollar d = false -> contains c_rbrace d = false -> contains c_bs d = false ->
+     xp_all env look (S (S f)) ("${:" ++ d ++ "}") = XOk d /\
+     xp_only env look (S (S f)) k ("${:" ++ d ++ "}") = XOk d /\
+     read_x env look k ("${:" ++ d ++ "}") = XOk d) /\
+  (forall env look f d,
+     look "" = None ->
+     contains c_dollar d = false -> contains c_rbrack d = false -> contains c_bs d = false ->
+     xp_all env look (S (S f)) ("$[:" ++ d ++ "]") = XOk d) /\
+  (exists c, run [] M16 "./prog" ["${:x}"] = Started c /\ c_argv c = ["x"]) /\
+  (exists c, run [] M16 "./prog" ["$[:x]"] = Started c /\ c_argv c = ["x"]) /\
+  (exists c, run [("b", "no")] M16 "./prog" ["a${:b:c}d"] = Started c /\ c_argv c = ["ab:cd"]).
+Proof.
+  split; [exact colon_at_start_brace|]. split; [exact colon_at_start_bracket|].
+  repeat split; eexists; (split; vm_compute; reflexivity).
+Qed.
+Print Assumptions C16_colon_at_start_is_default.
 
 
 (* app_args_unchanged, END TO END.  The guard is the boolean predicate
